@@ -694,11 +694,13 @@ def plan(tier):
         specs.append({"part": "enc", "lengths": list(range(65500, 65571)) + list(range(69990, MAXLEN + 1))})
         for i in range(3):
             specs.append({"part": "hyp-frame", "n": 4000, "i": i})
-        specs.append({"part": "cuts", "stream": "tiny", "positions": "all", "sizes": [1, 2, 3]})
-        specs.append({"part": "cuts", "stream": "tiny-close", "positions": "all", "sizes": [1, 2, 3]})
-        specs.append({"part": "cuts", "stream": "empty", "positions": "all", "sizes": [1, 2, 3]})
+        specs.append({"part": "cuts", "stream": "tiny", "positions": "all", "sizes": [1, 2, 3, 4]})
+        specs.append({"part": "cuts", "stream": "tiny-close", "positions": "all", "sizes": [1, 2, 3, 4]})
+        specs.append({"part": "cuts", "stream": "empty", "positions": "all", "sizes": [1, 2, 3, 4]})
         for i in range(2):
             specs.append({"part": "cuts", "stream": "forms", "positions": "all", "sizes": [1, 2], "stride": [i, 2]})
+        for i in range(2):
+            specs.append({"part": "cuts", "stream": "forms2", "positions": "all", "sizes": [1, 2], "stride": [i, 2]})
         specs.append({"part": "cuts", "stream": "big", "positions": 509, "sizes": [1]})
         specs.append({"part": "cuts", "stream": "big", "positions": "structure", "sizes": [2]})
         for i in range(6):
@@ -725,8 +727,8 @@ def plan(tier):
             specs.append({"part": "cuts", "stream": "big", "positions": "all", "sizes": [1], "stride": [i, 16]})
         for i in range(4):
             specs.append({"part": "cuts", "stream": "big", "positions": "structure", "sizes": [2], "stride": [i, 4]})
-        for i in range(24):
-            specs.append({"part": "hyp-stream", "n": 30000, "i": i})
+        for i in range(20):
+            specs.append({"part": "hyp-stream", "n": 25000, "i": i})
     return specs
 
 
